@@ -127,6 +127,16 @@ CHECKS["C04"] = dict(
          "placeholder; symbolic bytes are checked in the request and spliced into the reply. " + NETNOTE,
     design="3 (C04)", technique=CH)
 
+CHECKS["C15"] = dict(
+    text="Bounded symbolic execution of the serializers: exact-type dispatch, flag words, transmissible form and type-exact "
+         "round trip for symbolic bytes/str/small int/bool/None; CompressedSerde's threshold rule, COMPRESSED-flag <=> "
+         "codec-output-stored, never-larger-than-uncompressed and round trip with a stub codec whose output bytes and length "
+         "are symbolic; real pickle protocols 0..5 and zlib/bz2/lzma/identity on 34 solver-enumerated representatives "
+         "(huge ints, subclasses, nested containers). All shards exhaust.",
+    note="Pickle and the codecs are C code and reject symbolic proxies: for values routed to them the check is solver-chosen "
+         "enumeration, not an all-values claim. Trusted: z3, CrossHair models of bytes/str/int.",
+    design="3 (C15)", technique=CH)
+
 NOT_YET = {}
 
 NA_REASON_PENDING = "check not built yet in this session (planned; see DESIGN.md section 3)"
